@@ -15,10 +15,11 @@ Lemma refuted_by (g : graph) (s : nat) (ni : nimport) :
   ~ resolve_is_spec_statement.
 Proof. intros Ha Hi Hf H. rewrite (H g s ni Ha Hi) in Hf. discriminate. Qed.
 
-(* witness A: one binding exported under two names, re-exported to one name along two export-star paths *)
-Lemma refuted_alias :
-  all_esm witness_alias = true /\ indirect_acyclic witness_alias = true /\
-  link_verdict witness_alias (seq 0 6) 1 (imp 1 1 0) = Some VAmbiguous /\
+(* former witness A (one binding exported under two names, re-exported to one name along two
+   export-star paths): since fix a7bd0a8 the linker agrees with ResolveExport on it *)
+Lemma alias_witness_agrees :
+  all_esm witness_alias = true /\ single_alias witness_alias = false /\
+  link_verdict witness_alias (seq 0 6) 1 (imp 1 1 0) = Some (VFound 5 0) /\
   spec_verdict witness_alias 1 (imp 1 1 0) = Some (VFound 5 0).
 Proof. vm_compute. repeat split. Qed.
 
@@ -39,7 +40,7 @@ Proof. vm_compute. repeat split. Qed.
 
 Lemma statement_refuted : ~ resolve_is_spec_statement.
 Proof.
-  apply (refuted_by witness_alias 1 (imp 1 1 0)); vm_compute; auto.
+  apply (refuted_by witness_cycle 1 (imp 1 1 0)); vm_compute; auto.
 Qed.
 
 Definition graph_of (files : list nat) (names : list Z) (fs : list module) : graph :=
@@ -49,13 +50,13 @@ Lemma bounded_domain (files : list nat) (names : list Z) (dom : list (list modul
   forallb (graph_ok files names) dom = true ->
   forall fs, In fs dom ->
     let g := graph_of files names fs in
-    single_alias g = true -> indirect_acyclic g = true ->
+    indirect_acyclic g = true ->
     forall ni, In ni (m_imports (getm g (S (length fs)))) -> agrees g (seq 0 (length g)) (S (length fs)) ni = true.
 Proof.
-  intros Hall fs Hin g Hs Hi ni Hni.
+  intros Hall fs Hin g Hi ni Hni.
   rewrite forallb_forall in Hall. specialize (Hall fs Hin). unfold graph_ok in Hall.
   fold (graph_of files names fs) in Hall. fold g in Hall.
-  rewrite Hs, Hi in Hall. cbn [andb negb orb] in Hall.
+  rewrite Hi in Hall. cbn [negb orb] in Hall.
   rewrite forallb_forall in Hall. apply Hall. exact Hni.
 Qed.
 
